@@ -49,9 +49,17 @@ def region(rng, n):
     return {"swco": swco, "sw": sw, "krw": krw, "krow": krow, "pcow": pcow, "sg": sg, "krg": krg, "krog": krog, "pcog": pcog, "sof3": sof3}
 
 
-def endpoints(rng, regs, satnum):
-    """consistent per-cell end-points"""
+def endpoints(rng, regs, satnum, vertical=False):
+    """consistent per-cell end-points (with vertical scaling: the maximum and the value at the displacing phase's critical saturation)"""
     out = {k: [] for k in ("SWL", "SWCR", "SWU", "SGL", "SGCR", "SGU", "SOWCR", "SOGCR")}
+    if vertical:
+        for k in ("KRW", "KRWR", "KRO", "KRORW", "KRG", "KRGR"):
+            out[k] = []
+        for c in range(NC):
+            for big, small in (("KRW", "KRWR"), ("KRO", "KRORW"), ("KRG", "KRGR")):
+                m = round(rng.uniform(0.5, 1.0), 3)
+                out[big].append(m)
+                out[small].append(round(m * rng.uniform(0.3, 0.9), 3))
     for c in range(NC):
         swl = round(rng.uniform(0.05, 0.3), 3)
         swcr = round(swl + rng.uniform(0.0, 0.1), 3)
